@@ -129,5 +129,47 @@ CHECKS.update({
   text="Every unquoted name <=3 over {a,B,_,-,1} admitted by the tm ID rule and every quoted name with content <=2 over {a,B,_,-,1,+,\\,',\",e-acute} (241 spellings, 316 declarations) through ident.Produce in all 4 styles, declared alone as terminal and as nonterminal, and all unordered pairs declared together: a successful compile implies every Syms[i].ID matches ^[A-Za-z_][A-Za-z0-9_]*$ and no two symbols share an ID (otherwise an error must have been reported).",
   note="ident.Produce itself still returns the empty string for names without alphanumerics (two known findings); the compiler now rejects such symbols.",
   design="§5.C28"),
+ "C11": dict(
+  category="exploration",
+  technique="bounded enumeration of lexer grammars (rule sets by size + hand-written families) x rotating option subsets x all inputs <=4/5 through generated Go lexers vs an independent longest-match reference",
+  text="236 lexer-only grammars (145 strided samples of every (rules<=4, nodes) level of the C09 enumerator with 7 rotating decorations: (space) rules, shared tokens, explicit invalid_token, two start conditions switched by lexer actions, (class)+keyword specialisation; 91 hand-written grammars for keyword hash buckets, large Unicode maps, priorities, backtracking) are generated, built and run on every input <=4 (5 thorough) over {a,b,A,space,\\n,e-acute,emoji,0xff} plus CR words; each of the 32 subsets of {tokenLine,tokenColumn,scanBytes,nonBacktracking,caseInsensitive} is exercised (all 32 per grammar in thorough). Token kind, byte offsets, line, column, keyword specialisation, skipped space tokens, invalid-token spans with forced progress, EOI repetition and tiling are compared with a derivative-based reference that shares no code with lex/ or the templates.",
+  note="Rule sets are stride samples of the enumeration (build cost); zero-width {eoi} rules are excluded (statement silent).",
+  design="§5.C11"),
+ "C13": dict(
+  category="exploration",
+  technique="bounded exhaustive enumeration of extended-notation rule bodies; bounded language equality between a denotational evaluator and the compiler's expanded rules",
+  text="Every rule body of depth<=2 over leaves {ta,tb,X,set(ta|tb),set(~ta),(?= X)} with ?, |, sequence, *, +, separated + and * (23,874 bodies), depth 3 with one leaf and all depth-3 operator shapes with 2-4 leaves under fixed labelings, compiled with the real compiler.Compile (and a second layer that builds syntax.Model directly to reach right-recursive lists): Lang_6 of S and of a second input computed by structural recursion must equal the least-fixpoint language of Parser.Rules.",
+  note="Depth-3 bodies with 2-4 leaves are covered for every operator shape but not every leaf labeling in quick (more in thorough).",
+  design="§5.C13"),
+ "C14": dict(
+  category="exploration",
+  technique="bounded exhaustive enumeration of templated grammars (predicates, argument forms, flag declarations, lookahead flags); denotational template evaluation vs instantiated rules",
+  text="Five families (all predicates of <=3 primaries over !,&&,||,==,!= in 4 placements; every argument form +F,~F,F:G, by-name propagation, defaults; global and inline flags; chains and recursion through 3 templated nonterminals; lookahead flags through <=2 intermediates): 27,626 grammars quick / 190,399 thorough. For every instantiated nonterminal Lang_5 must equal the template's denotation under the valuation its name encodes, inputs derive their default-parameter language, and rejected grammars must carry the predicted diagnostic.",
+  note="param-typed parameters and set(N<args>) are not enumerated.",
+  design="§5.C14"),
+ "C15": dict(
+  category="exploration",
+  technique="bounded exhaustive enumeration of grammars x set expressions / named-set systems vs textbook fixpoints",
+  text="Reduced grammars of the tiny scope x 5 input configurations x {no error terminal, error} x every atom (t, X, first/last/follow/precede), complement and compound expression as %generate (20 per text), every <=2-literal expression over 3 hand-written grammars, all systems of 1-3 mutually/self-referring named sets, and set(...) inside rules: the resolved terminal sets must equal first/last/follow/precede/any fixpoints over the rules reachable from the first eoi input combined with plain set algebra; a self-dependent complement must be rejected; afterErr = follow(error).",
+  note="Complement universe and eoi handling follow the code where the README is silent (recorded as assumptions in the evidence). %assert is collected but never evaluated by the compiler (noted, not a violation: statement silent).",
+  design="§5.C15"),
+ "C16": dict(
+  category="exploration",
+  technique="bounded enumeration of rule shapes x action placements through generated parsers; recorded reference values vs an expansion-level reference model",
+  text="Rule bodies of 1-3 items from 19 item shapes (optionals, groups, nested choices with aliases, lists, sets, typed nonterminals, repeated symbols, lookaheads) x action placements (end, every gap, one gap, mid-rule only) plus rule pairs with identical action text; typed terminals whose value is 100+offset and a space rule make values, offsets and indices distinguishable. Every $name, $N, ${x.offset}, ${x.endoffset}, ${self[N]...}, first()/last() visible to each action is recorded by the generated parser on every sentence <=5 tokens and compared with the value/position of that symbol in the expansion (nil / -1 when absent).",
+  note="162 grammars quick / 2,337 thorough (build-bound). Values of lists/sets and positions of empty lists are unspecified and not compared. Two known findings (adjacent actions, first()/last() on helper symbols).",
+  design="§5.C16"),
+ "C19": dict(
+  category="model_checking",
+  technique="bounded enumeration of recovery grammars (error at every position) x all inputs <=5/6 through generated parsers; safety oracle plus differential against the same grammar without recovery",
+  text="644 statement-list base grammars x error inserted at or replacing every position (<=2 placements; 83,103 candidates; 240 quick / 3,000 thorough by deterministic strata) with rotating .recoveryScope / %inject invalid_token / optimizeTables variants, every rule annotated; every string <=5 (6) over {a,b,c,#,space} with a recovering and a stopping handler: the parse returns (step budget, hang only believed after a solo re-run), handler offsets lie in the input and never decrease, the first call is at the first non-viable token, and on sentences there are no handler calls and the events equal those of the twin grammar without error rules. Shipped tm and js parsers on all 1-token deletions/duplications of seed texts.",
+  note="states = distinct (grammar, mode, handler-call sequence, verdict); the grammar space is stride-sampled (build cost).",
+  design="§5.C19"),
+ "C29": dict(
+  category="model_checking",
+  technique="exhaustive enumeration of every cancellation moment relative to parser progress for generated and shipped cancellable parsers",
+  text="Generated list/value/lookahead parsers in 8 option sets (cancellableFetch, tokenStream, optimizeTables) on inputs of 1,100-1,600 tokens and the shipped js/tm/test parsers: the context is cancelled synchronously when the progress clock (tokens delivered, counted by a lexer action; listener calls for shipped parsers) reaches s, for EVERY s in 0..end+3 (every 8th plus poll boundaries +-2 for shipped parsers in quick): the result is ctx.Err() with an event prefix of the uncancelled run, or exactly the uncancelled result and events; at most 0x200+1+(lookahead invocations) further tokens are delivered after cancellation (observed maximum exactly 512).",
+  note="Event lists are compared through a 64-bit hash chain; shipped lexers cannot be hooked, so their bound is measured through listener positions with +64 slack.",
+  design="§5.C29"),
 })
 NOT_APPLICABLE_REASON = {}
